@@ -121,6 +121,9 @@ var programs = []string{
 	/* 41 */ "function v28j { v = %{a: 1}; out $v }\nv28j -> v28a",
 	/* 42 */ "try { v = %{a: 1}; w = $v; v28a; v28b }",
 	/* 43 */ "v = %{a: 1}; out \"$v\" ($v) $v.a; v28a",
+	// functions whose body fails to parse when it is called (a dangling pipe / logic token)
+	/* 44 */ "function v28bad { v28a | }\nv28bad ; v28b",
+	/* 45 */ "function v28bad2 { v28a && }\nv28bad2 | v28c ; v28bad2",
 }
 
 func check(block string, runs int) {
